@@ -20,7 +20,8 @@ CONSTANTS
   SMIN = 3
   SMAX = 9
   XSKIP = FALSE
+  CLRWAIT = TRUE
 INVARIANTS Linearizable NoDeadlock ResizeSafe QuiescentOK ReadersNeverBlock IterWeak GhostOK
-PROPERTY NeverShrinks
+PROPERTY NeverShrinks ClearSafe
 VIEW view
 CHECK_DEADLOCK FALSE
